@@ -143,6 +143,8 @@ def r3(ctx: Ctx) -> RuleReport:
                 if any(isinstance(n, ast.Attribute) and n.attr == 'triples' and isinstance(n.value, ast.Name) and n.value.id == p
                        for n in walk_local(fi.node)):
                     g = p
+            if g is None and len(gps) == 1 and fi.module.name == 'penman.transform':
+                g = gps[0]               # a helper that rebuilds the graph from triples handed to it together with the graph they were derived from
             if g is None:
                 continue
             key = f'{fi.module.name}:{fi.qualname}: {norm(call)[:80]}'
@@ -755,6 +757,11 @@ def r30(ctx: Ctx) -> RuleReport:
                         facts = facts_at(cfg, IN, pm, n)
                         v = n.value
                         good = isinstance(v, ast.Call) and norm(v.func) == fi.name and (f'is_atomic({l_tgt})', False) in facts
+                        if isinstance(v, ast.IfExp):
+                            # tgt = tgt if is_atomic(tgt) else <recursion>(tgt, ...)
+                            rc_ = lambda x: isinstance(x, ast.Call) and norm(x.func) == fi.name and x.args and norm(x.args[0]) == l_tgt  # noqa: E731
+                            good = (norm(v.test) == f'is_atomic({l_tgt})' and norm(v.body) == l_tgt and rc_(v.orelse)) or \
+                                (norm(v.test) == f'not is_atomic({l_tgt})' and norm(v.orelse) == l_tgt and rc_(v.body))
                         rep.add(f'{fi.fq}: targets change only by recursion into nested nodes', fi.loc(n), 'ok' if good else 'undecided', norm(n)[:60])
                 from ..resolve import expand
                 ot = expand(ctx, fi, o_tgt, a)
